@@ -321,44 +321,14 @@ func TestC07(t *testing.T) {
 	vcore.Run(t, "C07", genC07(), checkC07)
 }
 
-var c09Params = &HistoryParams{MinOps: 12, MaxOps: 40, Cloud: 0, Episodes: true, Reloads: true, Phrases: 25, Ranges: true,
+var c09Params = &HistoryParams{MinOps: 12, MaxOps: 40, Cloud: 0, Episodes: true, Reloads: true, Phrases: 25, Ranges: true, FaultPct: 25,
 	Weights: map[string]int{"reload": 14, "reserve": 16, "unreserve": 8, "fipevent": 14, "sched": 18, "create": 16, "drop": 0, "restart": 1,
 		"syncips": 4, "apirelease": 3, "poolapi": 2}}
 
 func genC09() *rapid.Generator[Case] {
 	return rapid.Custom(func(t *rapid.T) Case {
 		c := GenHistory(t, c09Params)
-		// reservation stories: an administrator reserves an IP; its watch event arrives before / after / never relative to the next
-		// scheduling; later the reservation is withdrawn, again with the event early or late, and pods are scheduled on
-		for k, n := 0, rapid.IntRange(0, 2).Draw(t, "nReservationStories"); k < n && len(c.Ops) > 0; k++ {
-			arg := func(k string) Op {
-				return Op{K: k, A: rapid.IntRange(0, 7).Draw(t, "ra9"), B: rapid.IntRange(0, 63).Draw(t, "rb9"), C: rapid.IntRange(0, 7).Draw(t, "rc9")}
-			}
-			story := []Op{arg("reserve")}
-			switch rapid.IntRange(0, 3).Draw(t, "addEvent") {
-			case 0:
-				story = append(story, Op{K: "fipevent"}, arg("create"), arg("sched"))
-			case 1:
-				story = append(story, arg("create"), arg("sched"), Op{K: "fipevent"})
-			case 2:
-				story = append(story, arg("create"), arg("sched"), arg("create"), arg("sched"))
-			default:
-				story = append(story, arg("reload"), Op{K: "fipevent"}, arg("create"), arg("sched"))
-			}
-			switch rapid.IntRange(0, 3).Draw(t, "withdraw") {
-			case 0:
-				story = append(story, arg("unreserve"), Op{K: "fipevent"}, Op{K: "fipevent"}, arg("create"), arg("sched"))
-			case 1:
-				story = append(story, arg("unreserve"), arg("create"), arg("sched"), Op{K: "fipevent"}, Op{K: "fipevent"}, arg("sched"))
-			case 2:
-				story = append(story, arg("unreserve"), arg("reload"), arg("create"), arg("sched"))
-			}
-			at := rapid.IntRange(0, len(c.Ops)).Draw(t, "storyAt")
-			if c.FaultAt != nil && c.FaultAt.Op >= at {
-				c.FaultAt.Op += len(story)
-			}
-			c.Ops = append(c.Ops[:at:at], append(story, c.Ops[at:]...)...)
-		}
+		addReservationStories(t, &c, true)
 		for i := range c.Ops {
 			if c.Ops[i].K == "episode" && rapid.IntRange(0, 2).Draw(t, "reloadEpisode") > 0 {
 				// a reload concurrently with allocate / release / pod-IP sync / reservation events
